@@ -372,7 +372,9 @@ def check(prop, tier, seed):
             cov["transitions"] += d["events"] + 1
             cov["trace_spec_states"] = cov.get("trace_spec_states", 0) + d["events"] + 2
             cov["drivers"].append({"driver": d["name"], "events": d["events"], "scenarios": d["summary"].get("scenarios"),
-                                   "by_kind": d["summary"].get("by_kind")})
+                                   "by_kind": d["summary"].get("by_kind"),
+                                   # behaviours / edges TLC generated from the MC_* model for this driver to replay (spec -> implementation)
+                                   **({"generated_by_tlc": d["pre"]} if d.get("pre") else {})})
             for g, (ev, app, bad) in d["evals"].items():
                 if prop_of(g) in ("M", "S"):
                     # model-conformance (M_) and beyond-the-properties (S_) guards: reported, never violations
